@@ -218,6 +218,41 @@ Proof.
   - apply last_index_none in Ei. rewrite (count_colon_zero _ Ei) in Hc. lia.
 Qed.
 
+Lemma index_byte_split c s i :
+  index_byte c s = Some i -> exists a b, s = a ++ c :: b /\ length a = i /\ has c a = false.
+Proof.
+  intro H. destruct (index_byte_sound _ _ _ H) as [E [Hn Hl]].
+  exists (firstn i s), (skipn (S i) s). auto.
+Qed.
+
+Lemma last_index_split c s i :
+  last_index_byte c s = Some i -> exists a b, s = a ++ c :: b /\ length a = i /\ has c b = false.
+Proof.
+  intro H. destruct (last_index_sound _ _ _ H) as [E [Hn Hl]].
+  exists (firstn i s), (skipn (S i) s). auto.
+Qed.
+
+(** the bracket branch: first ']' right before the last ':' *)
+Lemma bracket_shape s e :
+  (nth 0 s 0 =? c_lbr) = true -> index_byte c_rbr s = Some e -> last_index_byte c_colon s = Some (S e) ->
+  exists h d, s = c_lbr :: h ++ c_rbr :: c_colon :: d /\ e = S (length h)
+              /\ has c_rbr h = false /\ has c_colon d = false.
+Proof.
+  intros H0 He Hi.
+  destruct (index_byte_split _ _ _ He) as [A [B [EA [LA HA]]]].
+  destruct (last_index_split _ _ _ Hi) as [C [D [EC [LC HD]]]].
+  assert (E : A ++ [c_rbr] = C /\ B = c_colon :: D).
+  { apply app_eq_len.
+    - rewrite <- app_assoc. cbn [app]. rewrite <- EA, <- EC. reflexivity.
+    - rewrite app_length. cbn [length]. lia. }
+  destruct E as [<- ->].
+  destruct A as [|x A'].
+  - subst s. cbn [app nth] in H0. discriminate.
+  - subst s. cbn [app nth] in H0. apply N.eqb_eq in H0. subst x.
+    exists A', D. rewrite has_cons in HA. apply orb_false_iff in HA as [_ HA].
+    cbn [length] in LA. repeat split; auto.
+Qed.
+
 (** what an accepted string looks like *)
 Lemma split_sound s h d :
   split_host_port s = ShpOk h d ->
@@ -226,49 +261,43 @@ Lemma split_sound s h d :
 Proof.
   unfold split_host_port.
   destruct (last_index_byte c_colon s) as [i|] eqn:Ei; [|discriminate].
-  destruct (last_index_sound _ _ _ Ei) as [Es [Hrest Hlen]].
   destruct (nth 0 s 0 =? c_lbr) eqn:E0.
   - destruct (index_byte c_rbr s) as [e|] eqn:Ee; [|discriminate].
     destruct (S e =? length s)%nat; [discriminate|].
     destruct (S e =? i)%nat eqn:Eei; [|destruct (nth (S e) s 0 =? c_colon); discriminate].
     apply Nat.eqb_eq in Eei. subst i.
-    unfold shp_finish.
-    destruct (has c_lbr (skipn 1 s)) eqn:Hl1; [discriminate|].
-    destruct (has c_rbr (skipn (S e) s)) eqn:Hr1; [discriminate|].
+    destruct (bracket_shape _ _ E0 Ee Ei) as [h0 [d0 [Es [-> [Hrh Hcd]]]]].
+    subst s. unfold shp_finish, slice.
+    change (skipn 1 (c_lbr :: h0 ++ c_rbr :: c_colon :: d0)) with (h0 ++ c_rbr :: c_colon :: d0).
+    replace (S (length h0) - 1)%nat with (length h0) by lia.
+    rewrite firstn_len_app.
+    change (c_lbr :: h0 ++ c_rbr :: c_colon :: d0) with ((c_lbr :: h0) ++ c_rbr :: c_colon :: d0).
+    change (S (length h0)) with (length (c_lbr :: h0)).
+    rewrite skipn_S_len_app.
+    change ((c_lbr :: h0) ++ c_rbr :: c_colon :: d0) with ((c_lbr :: h0) ++ [c_rbr] ++ c_colon :: d0).
+    rewrite app_assoc.
+    replace (S (length (c_lbr :: h0))) with (length ((c_lbr :: h0) ++ [c_rbr])) by (rewrite app_length; simpl; lia).
+    rewrite skipn_S_len_app.
+    rewrite has_app, !has_cons.
+    replace (c_lbr =? c_rbr) with false by reflexivity.
+    replace (c_lbr =? c_colon) with false by reflexivity.
+    replace (c_rbr =? c_colon) with false by reflexivity.
+    cbn [orb].
+    destruct (has c_lbr h0) eqn:Hl1; [discriminate|]. cbn [orb].
+    destruct (has c_lbr d0) eqn:Hl2; [discriminate|].
+    destruct (has c_rbr d0) eqn:Hr2; [discriminate|].
     intro H. injection H as <- <-.
-    destruct (index_byte_sound _ _ _ Ee) as [Es2 [Hnor Hlen2]].
-    set (A := firstn e s) in *. set (B := skipn (S e) s) in *.
-    set (C := firstn (S e) s) in *. set (D := skipn (S (S e)) s) in *.
-    assert (EC : C = A ++ [c_rbr] /\ c_colon :: D = B).
-    { apply app_eq_len.
-      - rewrite <- app_assoc. simpl. rewrite <- Es, <- Es2. reflexivity.
-      - rewrite app_length. simpl. lia. }
-    destruct EC as [EC EB].
-    (* s starts with '[' so A = '[' :: A' *)
-    destruct s as [|x s']; [discriminate|]. cbn [nth] in E0. apply N.eqb_eq in E0. subst x.
-    destruct e as [|e'].
-    { (* the first ']' cannot be at position 0 *)
-      subst A. cbn in Es2. injection Es2 as Ebad _. discriminate. }
-    assert (EA : A = c_lbr :: firstn e' s') by reflexivity.
-    unfold slice. cbn [skipn]. replace (S e' - 1)%nat with e' by lia.
-    set (h := firstn e' s') in *.
-    assert (Ess : s' = h ++ c_rbr :: c_colon :: D).
-    { rewrite Es2, EA, <- EB in Es. cbn in Es. injection Es as Es. rewrite EA in Es2. cbn in Es2.
-      injection Es2 as Es2. rewrite Es2 at 1. rewrite <- EB. reflexivity. }
-    cbn [skipn] in Hl1. rewrite Ess in Hl1. rewrite has_app, !has_cons in Hl1.
-    apply orb_false_iff in Hl1 as [Hlh Hl1]. cbn in Hl1.
-    rewrite EA in Hnor. rewrite has_cons in Hnor. cbn in Hnor.
-    rewrite <- EB in Hr1. rewrite has_cons in Hr1. cbn in Hr1.
     repeat split; try assumption.
-    right. rewrite Ess. reflexivity.
-  - destruct (has c_colon (firstn i s)) eqn:Hc; [discriminate|].
-    unfold shp_finish. cbn [skipn].
+    right. rewrite <- app_assoc. reflexivity.
+  - destruct (last_index_sound _ _ _ Ei) as [Es [Hrest Hlen]].
+    destruct (has c_colon (firstn i s)) eqn:Hc; [discriminate|].
+    unfold shp_finish. rewrite !skipn_O.
     destruct (has c_lbr s) eqn:Hl; [discriminate|].
     destruct (has c_rbr s) eqn:Hr; [discriminate|].
     intro H. injection H as <- <-.
     rewrite Es in Hl, Hr. rewrite has_app, has_cons in Hl, Hr.
     apply orb_false_iff in Hl as [Hl1 Hl2]. apply orb_false_iff in Hr as [Hr1 Hr2].
-    cbn in Hl2, Hr2.
+    apply orb_false_iff in Hl2 as [_ Hl2]. apply orb_false_iff in Hr2 as [_ Hr2].
     repeat split; try assumption.
     left. split; [exact Es|exact Hc].
 Qed.
